@@ -100,6 +100,11 @@ redef_q.insert(0, [3, 6, 9604, 14, 0])
 redef_q.insert(1, [3, 1, 9604, 616, 0])
 redef_t.insert(0, [3, 6, 9604, 14, 0])
 redef_t.insert(1, [3, 1, 9604, 616, 0])
+# n=4 chain c0 (c1), c1 (c2); c2 redefined with the new super c3 right after its own
+# definition / one form before the end: histories inside the regions of findings 2 and 3
+redef_q.insert(2, [4, 11, 4127319, 1214, 30])
+redef_t.insert(2, [4, 11, 4127319, 1214, 30])
+redef_t.insert(3, [4, 11, 4127319, 430, 30])
 
 OVR = {"github.com/ohler55/slip/pkg/repl.addWord": "github.com/ohler55/slip/pkg/clos.zzC12NoWord"}
 C1, C2, C3 = "C12-initarg-multi-slot", "C12-redef-indirect-subclass-stale", "C12-redef-forward-super-subclass-stale"
